@@ -574,6 +574,7 @@ pub fn gen_family(rng: &mut Rng, family: &str, n_txs: usize) -> Block {
     match family {
         "corpus" => gen_corpus(rng, n_txs),
         "stale-fatal" => gen_stale_fatal(rng),
+        "conf" => gen_conf(rng, n_txs),
         "precompile" => {
             let spec = pick(rng, &[SpecId::SHANGHAI, SpecId::CANCUN, SpecId::PRAGUE, SpecId::OSAKA]);
             gen_precompile(rng, spec, n_txs)
@@ -792,5 +793,42 @@ pub fn gen_coded_sender(rng: &mut Rng) -> Block {
     b.nonces.insert(coded, 1);
     b.transfer(rng, eoa(0), eoa(1), 3);
     b.transfer(rng, coded, eoa(0), 1);
+    b.finish()
+}
+
+/// Conformance family: only MV-tracked locations are read (fees are non-zero so every reward is
+/// deferred and the beneficiary is never loaded; no creation or destruction, hence no reset
+/// markers). Transfers among few EOAs plus the data-dependent mixer contracts.
+pub fn gen_conf(rng: &mut Rng, n_txs: usize) -> Block {
+    let n_eoas = 2 + rng.below(3);
+    let spec = pick(rng, &[SpecId::BERLIN, SpecId::SHANGHAI, SpecId::CANCUN]);
+    let mut b = Builder::new(rng, spec, n_eoas);
+    b.basefee = 0;
+    b.env.basefee = 0;
+    b.db.insert_eoa(coinbase(), U256::from(1u64), 0);
+    b.db.insert_contract(contract(1), mixer_code(None), U256::ZERO, &[(0, 2), (1, 3)]);
+    b.db.insert_contract(contract(0), mixer_code(Some(contract(1))), U256::from(9u64), &[(0, 1), (2, 4)]);
+    for _ in 0..n_txs {
+        let from = eoa(rng.below(n_eoas));
+        let i = match rng.below(10) {
+            0..=3 => {
+                let to = eoa(rng.below(n_eoas));
+                let v = [1u128, 1000, ETHER / 5][rng.below(3)];
+                b.transfer(rng, from, to, v)
+            }
+            _ => {
+                let words = [rng.below(6) as u64, rng.below(5) as u64];
+                let to = contract(rng.below(2));
+                b.call(rng, from, to, &words, "mixer")
+            }
+        };
+        // non-zero fee: the reward is deferred, the beneficiary account is never read
+        b.txs[i].tx_type = 0;
+        b.txs[i].gas_priority_fee = None;
+        b.txs[i].gas_price = 1 + rng.below(3) as u128;
+    }
+    // accounts come with their bytecode attached, so whether the code location is read does not
+    // depend on the fill state of the shared cache
+    b.db.attach_code = true;
     b.finish()
 }
